@@ -130,6 +130,9 @@ pub struct CliCase {
     pub flags: Vec<Flag>,
     pub heu: Option<u8>,
     pub counter: bool,
+    /// logging options (-q, -v, -vv, --rust_log X): log output goes to stderr and must not change stdout
+    #[serde(default)]
+    pub verbosity: u8,
 }
 
 /// parse one printed interpretation line into label -> value pairs (in printed order)
@@ -155,8 +158,38 @@ pub fn parse_line(line: &str) -> Result<Vec<(String, Tv)>, String> {
     Ok(out)
 }
 
+/// parse a printed line when the statement names are known (names may contain blanks / brackets):
+/// at every position one of T( F( u( followed by the longest matching name and ") "
+pub fn parse_line_known(line: &str, labels: &[String]) -> Result<Vec<(String, Tv)>, String> {
+    let mut by_len: Vec<&String> = labels.iter().collect();
+    by_len.sort_by_key(|l| std::cmp::Reverse(l.len()));
+    let mut out = Vec::new();
+    let mut rest = line;
+    while !rest.is_empty() {
+        let v = match rest.as_bytes()[0] {
+            b'T' => Tv::T,
+            b'F' => Tv::F,
+            b'u' => Tv::U,
+            _ => return Err(format!("cannot read {rest:?} in line {line:?}")),
+        };
+        if !rest[1..].starts_with('(') {
+            return Err(format!("cannot read {rest:?} in line {line:?}"));
+        }
+        let body = &rest[2..];
+        let hit = by_len.iter().find(|l| body.starts_with(l.as_str()) && body[l.len()..].starts_with(") "));
+        match hit {
+            Some(l) => {
+                out.push(((*l).clone(), v));
+                rest = &body[l.len() + 2..];
+            }
+            None => return Err(format!("line {line:?} names a statement that is not in the input at {body:?}")),
+        }
+    }
+    Ok(out)
+}
+
 fn line_to_logical(line: &str, labels: &[String], sort: Sort) -> Result<Interp, String> {
-    let pairs = parse_line(line)?;
+    let pairs = parse_line_known(line, labels)?;
     if pairs.len() != labels.len() {
         return Err(format!("line {line:?} lists {} statements, the input declares {}", pairs.len(), labels.len()));
     }
@@ -230,6 +263,14 @@ fn c15_check(c: &CliCase, st: &mut Stats) -> CheckResult {
         if c.counter {
             args.push("--counter".into());
             args.push("nai".into());
+        }
+        match c.verbosity % 8 {
+            1 => args.push("-q".into()),
+            2 => args.push("-v".into()),
+            3 => args.push("-vv".into()),
+            4 => args.extend(["--rust_log".to_string(), "debug".to_string()]),
+            5 => args.push("-vvv".into()),
+            _ => {}
         }
         let cmdline = format!("adf-bdd {}", args[1..].join(" "));
         let run = match run_cli(&args) {
@@ -426,13 +467,13 @@ fn first_line(s: &str) -> String {
     s.lines().find(|l| !l.trim().is_empty()).unwrap_or("").chars().take(300).collect()
 }
 
-/// labels usable on the command line output: no whitespace (lines are tokenised at blanks)
+/// labels usable on the command line output: no line breaks (output lines are read with the known names)
 fn cli_labels(n: usize, hostile: bool) -> BoxedStrategy<Vec<String>> {
     gen::labels(n, if hostile { LabelClass::Hostile } else { LabelClass::Quoted })
         .prop_map(|v| {
             v.into_iter()
                 .enumerate()
-                .map(|(i, l)| if l.chars().any(|c| c.is_whitespace()) { format!("w{i}") } else { l })
+                .map(|(i, l)| if l.contains('\n') || l.contains('\r') { format!("w{i}") } else { l })
                 .collect::<Vec<_>>()
         })
         .prop_filter("distinct", |v| {
@@ -458,6 +499,25 @@ pub fn cli_adf(lo: usize, hi: usize, hostile_weight: u32) -> BoxedStrategy<AdfCa
         .boxed()
 }
 
+/// CLI part for the semantics properties: the flags named in the property's observation points, in all
+/// three library modes, with the C15 oracle
+pub fn sem_cli_part(name: &'static str, allowed: &'static [Flag], cases: u32) -> Box<dyn DynPart> {
+    Part::with_shrink(
+        name,
+        cases,
+        200,
+        move || {
+            (cli_case(), proptest::sample::subsequence(allowed.to_vec(), 1..=allowed.len()))
+                .prop_map(|(mut c, flags)| {
+                    c.flags = flags;
+                    c
+                })
+                .boxed()
+        },
+        c15_check,
+    )
+}
+
 fn cli_case() -> BoxedStrategy<CliCase> {
     (
         cli_adf(1, 5, 1),
@@ -465,8 +525,9 @@ fn cli_case() -> BoxedStrategy<CliCase> {
         proptest::sample::subsequence(ALL_FLAGS.to_vec(), 1..=6),
         proptest::option::weighted(0.6, 0u8..4),
         proptest::bool::weighted(0.15),
+        0u8..8,
     )
-        .prop_map(|(adf, sort, flags, heu, counter)| CliCase { adf, sort, flags, heu, counter })
+        .prop_map(|(adf, sort, flags, heu, counter, verbosity)| CliCase { adf, sort, flags, heu, counter, verbosity })
         .boxed()
 }
 
@@ -474,9 +535,9 @@ pub fn c15(tier: Tier) -> PropSpec {
     PropSpec {
         id: "C15",
         level: "exploration",
-        rule: "generated input file (ADF n<=5; labels plain / numeric / keyword-like / quoted without whitespace / occasionally with a \
+        rule: "generated input file (ADF n<=5; labels plain / numeric / keyword-like / quoted incl. blanks and tabs / occasionally with a \
                character biodivine reserves; arbitrary fact order and layout) x {none,--lx,--an} x subset of the ten semantics flags x \
-               --heu (absent or each of the four listed values) x --counter nai (sometimes); each case is run in ALL three --lib modes \
+               --heu (absent or each of the four listed values) x --counter nai (sometimes) x logging options (-q, -v.., --rust_log: stdout must not change); each case is run in ALL three --lib modes \
                with the binary built from the current tree. Oracle: exit 0; first line grounded, then the complete set (grounded \
                first), then blocks that form exactly one two-valued set and one stable set per requested variant (flags the help marks \
                'only hybrid' may print nothing outside hybrid mode); every line names every statement exactly once; --lx prints in \
@@ -484,7 +545,7 @@ pub fn c15(tier: Tier) -> PropSpec {
                matched by exact signature only (K1 reserved characters, K2 silently ignored flags). Non-trivial: >= 2 semantics \
                flags on an ADF with >= 2 complete models.",
         assumptions: vec![
-            "labels contain no whitespace so that output lines can be tokenised",
+            "labels contain no line breaks (output is split into lines); lines are read with the known statement names",
             "oracle.rs (n<=5)",
         ],
         exhaustive: false,
@@ -610,7 +671,7 @@ pub fn cli_counter_check(c: &(AdfCase, Sort, bool), st: &mut Stats) -> CheckResu
     let counts_line = lines.next().unwrap_or("");
     let grd_line = lines.next().ok_or("no grounded line after the counts")?;
     // statement order = order of the grounded line
-    let order: Vec<String> = parse_line(grd_line)?.into_iter().map(|p| p.0).collect();
+    let order: Vec<String> = parse_line_known(&format!("{grd_line}"), &adf.labels)?.into_iter().map(|p| p.0).collect();
     let mut counts: Vec<(u128, u128)> = Vec::new();
     for part in counts_line.split("ModelCounts").skip(1) {
         let nums: Vec<u128> = part
@@ -760,6 +821,39 @@ pub fn cli_export_check(c: &ExportCase, st: &mut Stats) -> CheckResult {
                 // import must print what the direct run prints
                 let mut imp: Vec<String> = vec![export.display().to_string(), "--import".into(), "--lib".into(), "naive".into()];
                 imp.extend(sem.iter().cloned());
+                // sorting options given together with --import must not relabel the stored diagrams: every
+                // printed line, read as a map from statement name to value, must be one the direct run prints
+                let extra_sort = match c.adf.labels.len() % 3 {
+                    0 => vec![],
+                    1 => vec!["--lx".to_string()],
+                    _ => vec!["--an".to_string()],
+                };
+                if !extra_sort.is_empty() {
+                    let mut imp2 = imp.clone();
+                    imp2.extend(extra_sort.iter().cloned());
+                    let r2 = run_cli(&imp2)?;
+                    if r2.code != Some(0) {
+                        return Err(format!("--import {extra_sort:?}: exit {:?}: {}", r2.code, first_line(&r2.stderr)));
+                    }
+                    let to_maps = |out: &str| -> Result<Vec<Vec<(String, Tv)>>, String> {
+                        out.lines()
+                            .map(|l| {
+                                let mut m = parse_line_known(l, &c.adf.labels)?;
+                                m.sort();
+                                Ok(m)
+                            })
+                            .collect()
+                    };
+                    let (mut a, mut b) = (to_maps(&r2.stdout)?, to_maps(&direct.stdout)?);
+                    a.sort();
+                    b.sort();
+                    if a != b {
+                        return Err(format!(
+                            "--import with {extra_sort:?} prints {:?}, which names other statement values than the direct run {:?}",
+                            r2.stdout, direct.stdout
+                        ));
+                    }
+                }
                 let imp_run = run_cli(&imp)?;
                 if imp_run.code != Some(0) {
                     return Err(format!("--import: exit {:?}: {}", imp_run.code, first_line(&imp_run.stderr)));
